@@ -140,7 +140,7 @@ def contracts():
             final(self).lim() == old(self).lim(), //@C09.limits_frame
             // exactly one admission is recorded per call (none when no limit is configured)
             old(self).lim().len() == 0 ==> final(w).admissions == old(w).admissions, //@C09.no_limits
-            old(self).lim().len() > 0 ==> final(w).admissions == old(w).admissions.push(final(w).clock), //@C09.one_admission
+            old(self).lim().len() > 0 ==> exists|t: int| old(w).clock <= t <= final(w).clock && final(w).admissions == old(w).admissions.push(t), //@C09.one_admission
             // the caller leaves with one limiter pass, and nothing else of the network state changed
             final(w).net == (Net { permit: true, ..old(w).net }), final(w).fs == old(w).fs, //@C09.permit
 """, loops={1: """
@@ -148,19 +148,20 @@ def contracts():
         w.admissions == old(w).admissions, self.limits@.len() > 0, w.net == old(w).net, w.fs == old(w).fs,
 """},
             rewrites=[NOW],
-            at=[("before_stmt", "return;", 1, "proof { w.net.permit = true; }"),
-                ("after_open", "if self.request_allowed", 1, """
+            at=[("exits", None, 0, "proof { w.net.permit = true; }"),
+                ("before_stmt", "self.query_log.push(", 1, """
                 let ghost pre_self = *self;
                 let ghost pre_w = *w;
 """),
-                ("before_stmt", "return;", 2, """
+                ("after_stmt", "self.query_log.push(", 1, """
                 proof {
-                    let t = w.clock;
+                    // history variable: the instant just logged is an admission
+                    let t = self.log().last();
                     let adm0 = pre_w.admissions;
-                    w.admissions = adm0.push(t);
-                    w.net.permit = true;
-                    pre_self.lemma_admit(pre_w, t);
                     assert(self.log() =~= pre_self.log().push(t));
+                    assert(w.clock >= t); //@C09.logged_instant_is_not_in_the_future
+                    w.admissions = adm0.push(t);
+                    pre_self.lemma_admit(pre_w, t); //@C09.admitted_only_when_every_limit_has_room_at_the_logged_instant
                     assert(self.lim() == pre_self.lim());
                     // suffix relation
                     let k = adm0.len() - pre_self.log().len();
